@@ -32,6 +32,7 @@ PROPS = {
     "C04": prop(explanation="E1: impl generics, where clause over all declared bounds of all trait fns, Impl path, self type, mockable(); E2: bound collection and impl assembly"),
     "C10": prop(kani=["set_fallbacks_1", "set_fallbacks_2", "modifier_entrait", "modifier_entrait_export", "modifier_entrait_unimock", "modifier_entrait_export_unimock"], explanation="E1: option kernel, cfg_attr(test, ..) gating, emptiness of the unimock params; E3: set_fallbacks; E2: attribute selection over the full option lattice"),
     "C11": prop(explanation="E1: exact unimock attribute parameters incl. unmock_with entries"),
+    "C16": prop(level="other", e1=False, e1_required=False, explanation="bounded only: fix_fn_param_idents is string / HashSet / visit_mut code outside Verus' reach; the contract is evaluated exhaustively to the property's own small-scope bound"),
     "C17": prop(kani=["set_fallbacks_1", "set_fallbacks_2", "modifier_entrait", "modifier_entrait_export", "modifier_entrait_unimock", "modifier_entrait_export_unimock"], explanation="E1: option accessors (defaults of the table); E3: set_fallbacks; E2: parsers - bare = true, false = absent, order independence, accepted sets, macro variants as shorthands"),
     "C19": prop(explanation="E1: absolute paths of every emitter under contract"),
 }
